@@ -171,7 +171,7 @@ let dispatch cmd =
               ^ ",\"tcp\":{\"sport\":" ^ ji k.k_tcp.t_sport ^ ",\"dport\":" ^ ji k.k_tcp.t_dport ^ ",\"seq\":" ^ ji k.k_tcp.t_seq ^ ",\"ack\":" ^ ji k.k_tcp.t_ack
               ^ ",\"flags\":" ^ ji k.k_tcp.t_flags ^ ",\"urg\":" ^ ji k.k_tcp.t_urg ^ ",\"payload\":" ^ jtext k.k_tcp.t_payload ^ "}"
               ^ ",\"ip\":{\"src\":" ^ jtext k.k_ip.i_src ^ ",\"dst\":" ^ jtext k.k_ip.i_dst ^ ",\"id\":" ^ ji k.k_ip.i_id ^ ",\"tos\":" ^ ji k.k_ip.i_tos ^ "}}"))
-  | "imp_tcp" -> let st = ntext () in
+  | "imp_tcp" -> let md = nz () in let st = ntext () in
       let b_ver = nz () in let b_src = ntext () in let b_dst = ntext () in let b_id = nz () in let b_ipflags = nz () in let b_frag = nz () in
       let b_proto = nz () in let b_sport = nz () in let b_dport = nz () in let b_seq = nz () in let b_ack = nz () in let b_flags = nz () in
       let b_urg = nz () in let b_win = nz () in
@@ -187,7 +187,7 @@ let dispatch cmd =
           | Ok (x, rest) ->
             "{\"ok\":{\"unused_tape\":" ^ string_of_int (List.length rest) ^ ",\"bytes\":" ^ jres jtext (enc_out x)
             ^ ",\"supported\":" ^ jb (supported_b s) ^ ",\"coherent\":" ^ jb (coherent_b s b)
-            ^ ",\"oracle\":" ^ jres (fun (m, d) -> "[" ^ jopt jmtype m ^ "," ^ ji d ^ "]") (oracle (z_of_int 35) s x) ^ "}}"))
+            ^ ",\"oracle\":" ^ jres (fun (m, d) -> "[" ^ jopt jmtype m ^ "," ^ ji d ^ "]") (oracle md s x) ^ "}}"))
   | _ -> failwith ("unknown command " ^ cmd)
 
 let () =
